@@ -6,22 +6,41 @@ DRIVER = "drv_bitset"
 DRIVER_MODULE = "Driver.Bitset"
 PROPS = "RlibModel.Props.C12"
 PROPS_SRC = "RlibModel.Props.C12Src"     # second tie: `src_*` theorems about the definitions regenerated from the source text
-PROFILES = ["release"]
+PROFILES = ["release", "debug"]     # debug: debug assertions on, no optimisation - a reduced stream of the same families (harness_args)
 SHRINK_SEP = ";"
-RULE = ("a case is one history `N K ; op ; ...` over K live Bitset<N> registers, N in {1,2,3,10}; at its end every register is "
-        "observed through test on all 64N indices, count, iter_bits collected, Display, Debug and == on all register pairs. "
-        "Streams: (A) every pool set x every word-boundary position x set/remove/flip; (B) all ordered pairs of the 40 structured "
-        "pool sets per N through &,|,^ and &=,|=,^= (quick: all 1600 pairs for N=1, a sub-grid for the others); (C) !, !!, clear, "
-        "self-assigning ops on every pool set; (D) from_u64 on every single-bit word and special words; (E) every single-bit set "
-        "and boundary bit pairs (iterator); (F) random histories of set/remove/flip/test/clear/new/from_u64/binary/assigning/not/"
-        "clone/load with positions biased to 0,63,64,65,64k-1,64k,64N-1; (G) a small out-of-domain stream (positions >= 64N, "
-        "spec answer `any`). non-trivial = distinct in-domain history with at least one state-changing op")
+RULE = ("a case is one history `N K ; op ; ...` over K live Bitset<N> registers; the const generic N is instantiated for 1, 2, 3, 10 and the "
+        "64-word boundary family 63, 64, 65, 128, 129 (the harness's compiled-in list IS the instantiation list). At the end of the history every "
+        "register is observed through test on all 64N indices, count, iter_bits collected, Display, Debug, the iterator probes, and == / != on all "
+        "register pairs; `obs r` makes the same observation of one register in the MIDDLE of the history (several bitsets alive, observed before "
+        "and after they and their neighbours change). Iterator probes: a fresh BitsIter advanced by k = 0, 1, 2, l/2, l-1, l, l+1 calls of next "
+        "(l = number of members; l and l+1 = exhausted, next called again after None) and then used through count, last, collect, nth(j)+by_ref, "
+        "peekable, skip, size_hint and (k = 0, 1, l/2, l) fold, for_each, sum, product, min, max, max_by_key / min_by_key / max_by / min_by with ties, "
+        "position, find, find_map, any, all, try_fold (each followed by count() of what is left), reduce, cmp / partial_cmp / eq / ne / lt / le / gt / ge "
+        "against the same iterator one step further, step_by, take, skip_while, chain, zip, enumerate, Vec::extend, partition, is_sorted. Field x= of "
+        "every observation: BitsIter::new on the raw words, to_string, {:#?}, Debug inside Option, clone, clone_from into a fresh and into a used "
+        "destination, Default, & | ^ with the SAME object on both sides, &= |= ^= with an equal right-hand side, !!b, count vs iter. Ops also include "
+        "clone_from into a live register, Default::default, the assigning operators on the live right-hand register. "
+        "Streams: (A) every pool set x every word-boundary position x set/remove/flip; (B) ordered pairs of the 40 structured "
+        "pool sets per N through &,|,^ and &=,|=,^= (quick: a sub-grid rotating with the seed); (C) !, !!, clear, self-assigning ops, the same "
+        "register on both sides of & | ^, clone_from / default on every pool set; (D) from_u64 on every single-bit word and special words; (E) every "
+        "single-bit set and boundary bit pairs (iterator); (F) random histories of all ops with positions biased to 0,63,64,65,64k-1,64k,64N-1; "
+        "(G) a small out-of-domain stream (positions >= 64N, spec answer `any`); (H) live-object histories with mid-history observations; "
+        "(I) the same families for N = 63, 64, 65, 128, 129 on sparse and a few dense sets with members around 4031/4032/4095/4096/4097/8191/8192 "
+        "(quick: full reduced stream for 65 and 129, lighter for 63, 64, 128). A second, reduced run uses the debug build profile. "
+        "non-trivial = distinct in-domain history with at least one state-changing op")
 ASSUMPTIONS = [
     "the Lean model of rlib_bitset is hand-written; it is tied to the code by running both on the same histories",
     "u64::count_ones / u64::trailing_zeros are modelled by bit recursion (popcnt, tz); their agreement with the intrinsics is "
     "exercised by the correspondence run, not proved",
     "theorems about count / iter_bits / Display carry the capacity guard 64*N + 64 <= 2^64 (no usize overflow); every array that "
     "fits a 64-bit address space satisfies it",
+    "std's provided Iterator methods are specified by their std definitions as functions of the list `next` still yields (showProvided / "
+    "showProbe in Model/Bitset.lean, executed on the model side on the list obtained by stepping the model's next and on the spec side on "
+    "members.drop k; theorem iter_remaining proves the two lists equal); the same values are recomputed in the harness from a Vec<bool> "
+    "mirror with plain loops (independent oracle, flag o=)",
+    "the x= field (BitsIter::new on raw words, ToString, {:#?}, Debug inside Option, clone / clone_from / Default, same-object operators, "
+    "equal-operand assigning operators, !!) is checked by an independent brute-force oracle inside the harness (Vec<bool> mirror, results read back "
+    "through test on every index); the model prints the constant x=ok. `default d` and `clonefrom d s` are read by the driver as the model's new / clone",
 ]
 TRUSTED_EXTRA = ["harness watchdog: a case that burns 2 s of CPU time without returning is reported as `hang` (a violation)"]
 MANIFEST = {
@@ -29,17 +48,22 @@ MANIFEST = {
     "text": ("Lean 4 theorems over a word-level model (List of u64 words, any N): set/remove/flip/clear/new/from_u64/and/or/xor/not "
              "and the assigning forms act on the membership function exactly as the set operations; count = number of members; "
              "BitsIter yields exactly the members in ascending order, once each, and terminates (fuel bound proved); == is "
-             "extensional equality on [0,64N); Display/Debug are the 0/1 string of test; every history over named bitsets refines "
-             "the same history over sets; the invariant 'N words, each < 2^64' is preserved. The hand-written model is tied to "
-             "rlib_bitset by a differential correspondence run on every check."),
+             "extensional equality on [0,64N), != its negation; Display/Debug are the 0/1 string of test; every history over named bitsets "
+             "(mid-history observations included) refines the same history over sets; the invariant 'N words, each < 2^64' is preserved. "
+             "The hand-written model is tied to rlib_bitset by a differential correspondence run on every check, for the capacities "
+             "N in {1,2,3,10,63,64,65,128,129} and every provided Iterator method of BitsIter on partially consumed iterators."),
     "note": ("Trusted: Lean kernel, axioms propext/Classical.choice/Quot.sound, the hand-written model (checked against the code on the "
-             "generated histories for N in {1,2,3,10}), count_ones/trailing_zeros intrinsics = their bit-recursive models, harness and "
+             "generated histories for N in {1,2,3,10,63,64,65,128,129}, release and debug profile), count_ones/trailing_zeros intrinsics = their bit-recursive models, harness and "
              "driver plumbing. usize overflow is excluded by the guard 64N+64 <= 2^64."),
     "technique": "Lean 4 proof of a hand-written model + differential correspondence check against the Rust crate",
     "design_ref": "DESIGN.md §6 C12",
 }
 
-_CHANGING = ("set", "remove", "flip", "from", "load", "not", "and", "or", "xor", "anda", "ora", "xora", "clear", "clone")
+_CHANGING = ("set", "remove", "flip", "from", "load", "not", "and", "or", "xor", "anda", "ora", "xora", "clear", "clone", "clonefrom", "default")
+
+
+def harness_args(params, profile):
+    return ["--profile", profile]
 
 
 def nontrivial(case, rec):
